@@ -332,7 +332,7 @@ class StructureMetaType(MetaType):
 
             if cls.__align__ and field.offset is None:
                 is_bitbuffer_boundary = bit_buffer._type and (
-                    bit_buffer._remaining == 0 or bit_buffer._type != field_type
+                    bit_buffer._remaining == 0 or bit_buffer._type != bit_field_type
                 )
                 if not bit_buffer._type or is_bitbuffer_boundary:
                     # Previous field was dynamically sized and we need to align
